@@ -4,6 +4,7 @@ from . import shared as S
 from . import naming as N
 from . import accept as A
 from .c07 import r_group_table_who
+from . import spawner as SP
 
 
 def check(ctx: Ctx) -> None:
@@ -11,6 +12,8 @@ def check(ctx: Ctx) -> None:
     r_group_table_who(ctx, "R10.1w")
     S.r_wiring(ctx, "R10.2", {"GROUP"}, 8, "group name role")
     A.r_one_spawner_per_request(ctx, "R10.2r")
+    SP.r_spawner_group(ctx, "R10.2s")
+    SP.r_map_returns_name(ctx, "R10.2m")
     N.r_group_name_generator(ctx, "R10.3")
     A.r_raise_inventory(ctx, "R10.4")
     N.r_get_group_ids(ctx, "R10.4g")
